@@ -64,7 +64,7 @@ func c19Pool(c *vrep.Ctx) {
 	}
 	var files []string
 	unreadable := 0
-	rot := c.ParamInt("rot", 0)         // rotates the menu: which kind of file comes first
+	rot := c.ParamInt("rot", 0)          // rotates the menu: which kind of file comes first
 	allMissing := c.Param("missing", "") // "all": every file is unreadable; "most": all but the first
 	for i := 0; i < nfiles; i++ {
 		f := contents[(i+rot)%len(contents)]
